@@ -166,3 +166,61 @@ def cacheview_flag_truthful(ctx):
         b = _norm(complete)
         return fn, (None if a == b else 'cannot evaluate `%s`; the two tests differ textually: `%s` vs `%s`' % (e, b, a))
     return fn, None
+
+
+# ------------------------------------------------------------------ Record
+def record_leaks(ctx, fn):
+    """Yield nodes of `fn` whose value may be a Record created in fn.
+
+    petl.util.base.Record is a tuple subclass handed to user callables; its
+    __getitem__ returns the operator's `missing` for an absent position instead
+    of raising IndexError, and it carries the field names.  An operator that
+    passes it on as an output row changes how the next operator sees short
+    rows (no IndexError -> no padding with *its* missing) -- rows are delivered
+    as plain tuples."""
+    import ast as _ast
+    from ..loader import norm as _norm, own_nodes as _own
+    sites = set()
+    for c in _own(fn.node):
+        if isinstance(c, _ast.Call) and _norm(c.func) in ('Record', 'petl.util.base.Record'):
+            sites.add('%d:%d' % (c.lineno, c.col_offset))
+    if not sites:
+        return None
+    fa, events = analysed(ctx, fn)
+    out = []
+    for ev in events:
+        if ev.kind == 'yield':
+            v = ev.info.get('value') or ()
+            if any(a[0] == 'FRESH' and a[2] in sites for a in v):
+                out.append(ev.node)
+    return out
+
+
+RECORD_OUTPUT_BY_CONTRACT = {
+    'petl.util.base:iterrecords': 'records() is the accessor documented to return Record objects',
+}
+
+
+def check_record_leaks(ctx, rep, rule, fns):
+    n = 0
+    for fn in fns:
+        if fn.fq in RECORD_OUTPUT_BY_CONTRACT:
+            rep.held(rule, fn, 'Records of ' + fn.name, 'reviewed exception: ' + RECORD_OUTPUT_BY_CONTRACT[fn.fq], fn.node)
+            continue
+        res = record_leaks(ctx, fn)
+        if res is None:
+            continue
+        n += 1
+        for node in res:
+            rep.violated(rule, fn, 'yield of a Record: %s' % ast_text(node),
+                         'the operator hands on the Record wrapper it built for the user callable instead of a plain tuple '
+                         'of the row: a Record answers row[i] for an absent position with this operator\'s `missing` instead '
+                         'of raising IndexError, so the next operator no longer recognises the row as short', node)
+        if not res:
+            rep.held(rule, fn, 'Records stay inside ' + fn.name, 'every yielded row is a plain tuple / the source row', fn.node)
+    return n
+
+
+def ast_text(node):
+    from ..loader import norm as _norm
+    return _norm(node)[:60]
